@@ -60,6 +60,19 @@ func checkIdentityKeys(p *Prog, r *Report, rule string, only func(*ssa.Function)
 		usesTypeString := dependsOn(bl.Key, isTypeStringCall)
 		r.Check(!usesTypeString, rule, cons+" is identity bearing", p.Pos(posOf(bl.At)), "key does not go through Type.String()",
 			"the mocker cache is keyed by reflect.Type.String(), which is not unique (same-named types of different packages, e.g. a/foo.T and b/foo.T, print alike): asking for the second type returns the first type's mocker and the wrong type is mocked")
+		usesElem := dependsOn(bl.Key, func(v ssa.Value) bool {
+			c, ok := v.(*ssa.Call)
+			if !ok {
+				return false
+			}
+			if c.Call.IsInvoke() && c.Call.Method.Name() == "Elem" {
+				return true
+			}
+			cn := calleeName(c.Common())
+			return cn == "(reflect.Value).Elem" || cn == "reflect.Indirect"
+		})
+		r.Check(!usesElem, rule, cons+" keeps pointer and value instances apart", p.Pos(posOf(bl.At)), "key is the instance's own type",
+			"the mocker cache key strips the pointer (Elem/Indirect): Struct(&T{}) and Struct(T{}) share one mocker although methods are resolved on the instance type the first caller supplied, so a value-receiver method asked for through the other form is patched at the wrong symbol (the pointer wrapper) or reported missing")
 		if needPointer {
 			dep := dependsOn(bl.Key, func(v ssa.Value) bool {
 				c, ok := v.(*ssa.Call)
@@ -235,6 +248,8 @@ func c06(c *Ctx) {
 		})
 		r.Check(okS, "C06.R3", "MethodMocker.Method stores the requested name", p.Pos(mm.Pos()), "m.method = name", "the method name stored in the mocker is not the requested one")
 	}
+	// unexported methods are resolved by exact symbol name (shared with C10)
+	checkExactSymbolMatch(p, r, "C06.R3")
 	// ---- R4 symbol name construction for unexported methods
 	// format constants used to build object names
 	fmts := map[string]bool{}
